@@ -497,6 +497,42 @@ static void addUnit(const std::string & name, int minTier, Cfg cfg, int dq, int 
 #ifndef VERIF_SUB
 #define VERIF_SUB -1
 #endif
+
+// ------------------------------------------------------------------ arity matrix for the heterogeneous queue
+// prototypes of 1, 3, 5 and 6 int arguments in one HeterEventQueue: every position carries a distinct value and every
+// consuming call form must hand exactly those values to the listener (and predicate) of the matching prototype
+struct ArityHarness {
+	typedef std::vector<int> Args;
+	typedef eventpp::HeterEventQueue<int, eventpp::HeterTuple<void(int), void(int, int, int), void(int, int, int, int, int), void(int, int, int, int, int, int)> > Q;
+	Ctx & ctx; long evals = 0;
+	std::vector<Args> seen, pred;
+	explicit ArityHarness(Ctx & c) : ctx(c) {}
+	static std::string show(const std::vector<Args> & v) { std::string s; for(auto & a : v) { s += "("; for(size_t i = 0; i < a.size(); ++i) s += fmt("%s%d", i ? "," : "", a[i]); s += ") "; } return s; }
+	void expect(const char * mode, const char * what, const std::vector<Args> & got, const std::vector<Args> & want) {
+		++evals;
+		if(got != want && !ctx.failed) ctx.fail("arity-arguments-differ", fmt("HeterEventQueue, %s: %s received %s, expected %s", mode, what, show(got).c_str(), show(want).c_str()));
+	}
+	void fill(Q & q) {
+		q.appendListener(5, [this](int a) { seen.push_back(Args{a}); });
+		q.appendListener(5, [this](int a, int b, int c) { seen.push_back(Args{a, b, c}); });
+		q.appendListener(5, [this](int a, int b, int c, int d, int e) { seen.push_back(Args{a, b, c, d, e}); });
+		q.appendListener(5, [this](int a, int b, int c, int d, int e, int f) { seen.push_back(Args{a, b, c, d, e, f}); });
+		q.enqueue(5, 11); q.enqueue(5, 21, 22, 23); q.enqueue(5, 31, 32, 33, 34, 35); q.enqueue(5, 41, 42, 43, 44, 45, 46);
+	}
+	void run() {
+		const std::vector<Args> all = {{11}, {21, 22, 23}, {31, 32, 33, 34, 35}, {41, 42, 43, 44, 45, 46}};
+		{ Q q; seen.clear(); fill(q); q.process(); expect("process", "the listeners", seen, all); }
+		{ Q q; seen.clear(); fill(q); for(int i = 0; i < 4; ++i) q.processOne(); expect("processOne x4", "the listeners", seen, all); }
+		{ Q q; seen.clear(); pred.clear(); fill(q);
+		  q.processIf([this](int a, int b, int c) { pred.push_back(Args{a, b, c}); return true; });
+		  expect("processIf(3-argument predicate)", "the predicate", pred, {{21, 22, 23}}); expect("processIf(3-argument predicate)", "the listeners", seen, {{21, 22, 23}});
+		  pred.clear();
+		  q.processIf([this](int a, int b, int c, int d, int e) { pred.push_back(Args{a, b, c, d, e}); return false; });
+		  expect("processIf(5-argument predicate, refusing)", "the predicate", pred, {{31, 32, 33, 34, 35}});
+		  q.process(); expect("processIf then process", "the listeners", seen, {{21, 22, 23}, {11}, {31, 32, 33, 34, 35}, {41, 42, 43, 44, 45, 46}}); }
+		ctx.executions = evals;
+	}
+};
 #define SEL(s) (VERIF_SUB < 0 || VERIF_SUB == (s))
 using ST = eventpp::SingleThreading;
 using MT = eventpp::MultipleThreading;
@@ -523,6 +559,12 @@ static struct Register {
 				rep.str["config"] = "HeterEventDispatcher/HeterEventQueue<std::string, ..., ArgumentPassingIncludeEvent>: key as lvalue/const lvalue/prvalue/std::move x 2 prototypes";
 			};
 			u.replay = [](Ctx & ctx, const std::vector<int> & seq) { InclHarness h(ctx); replayBody(ctx, seq, [&](Bfs & bb) { h.body(bb); }, nullptr); };
+			units().push_back(u);
+		}
+		{
+			Unit u; u.name = "C14/arity-matrix"; u.minTier = 0;
+			u.run = [](Ctx & ctx, UnitReport & rep, int) { ctx.ex.beginExecution(); ArityHarness h(ctx); h.run(); rep.num["executions"] = (double)h.evals; rep.str["config"] = "HeterEventQueue with prototypes of 1, 3, 5, 6 int arguments x {process, processOne, processIf}: complete enumeration"; };
+			u.replay = [](Ctx & ctx, const std::vector<int> &) { ctx.tracing = true; ArityHarness h(ctx); h.run(); };
 			units().push_back(u);
 		}
 		{
